@@ -71,6 +71,14 @@ def main(argv):
                 print("  ", v[2])
         return rc
     except mir.CheckerError as e:
+        try:
+            if rep.violations:
+                # a recognised violation was already established before an anchor went missing:
+                # report it (the later anchor failure is usually a consequence of the same edit)
+                print("%s note: rule engine stopped early: %s" % (pid, e))
+                return rep.finish("partial run (stopped early: %s)" % e, []) or 1
+        except NameError:
+            pass
         print("CHECKER-ERROR property=%s reason=%s" % (pid, e))
         return 2
     except Exception as e:  # fail closed, visibly
